@@ -365,7 +365,7 @@ Print Assumptions C17_window_examples.
    the three _explicit theorems). *)
 From S4.Base Require Chunk.
 From S4.Model Require Lines Caches RetainCaches.
-From S4.Proofs Require CachesProofs RetainKeepsUp RetainNoErr RetainFar RetainFarFifo RetainCachesAgree RetainCachesLayout.
+From S4.Proofs Require CachesProofs RetainKeepsUp RetainNoErr RetainFar RetainFarFifo RetainFarConv RetainCachesAgree RetainCachesLayout.
 
 (* what "agree" says: the five counters of summary() equal the five marks, the three stores have
    the same sizes, and no release failed *)
@@ -619,6 +619,29 @@ Theorem C17_far_fifo_examples :
    derr (run cur_plain (init ms) evs) = 1).
 Proof. vm_compute. repeat split; reflexivity. Qed.
 Print Assumptions C17_far_fifo_examples.
+
+(* THE CONVERSE: the recorded class of finding F9a is exactly where the lagging consumer makes a release
+   fail.  If some drop that is really issued (its reference p is neither message 0 nor one of the last
+   two) reaches a message m found fewer than lag messages before the message being found, the run under
+   sched_lag lag has a failed release — either policy, plain or streamed, no well-formedness needed *)
+Theorem C17_reached_held_explicit : forall lag ms, RetainFarConv.reached_held lag ms <->
+  exists m p, In m ms /\ In p ms /\ 3 <= mfb p /\ mlb m + 2 <= mfb p /\ mkey p + 1 < mkey m + lag
+              /\ mkey p + 2 < lenN ms /\ 1 <= mkey p /\ mkey m <= mkey p.
+Proof. exact (fun lag ms => iff_refl _). Qed.
+Print Assumptions C17_reached_held_explicit.
+
+Theorem C17_reached_held_fails : forall c lag ms, 1 <= lag -> map mkey ms = nseq 0 (length ms) ->
+  RetainFarConv.reached_held lag ms -> 0 < derr (run c (init ms) (sched_lag lag (length ms))).
+Proof. exact RetainFarConv.reached_held_err. Qed.
+Print Assumptions C17_reached_held_fails.
+
+Theorem C17_far_excludes_reached_held : forall lag ms, RetainFar.far lag ms -> RetainFarConv.reached_held lag ms -> False.
+Proof. exact RetainFarConv.far_not_reached_held. Qed.
+Print Assumptions C17_far_excludes_reached_held.
+
+Theorem C17_reached_heldb_sound : forall lag ms, RetainFarConv.reached_heldb lag ms = true -> RetainFarConv.reached_held lag ms.
+Proof. exact RetainFarConv.reached_heldb_sound. Qed.
+Print Assumptions C17_reached_heldb_sound.
 
 Theorem C17_keeps_up_example :
   let ms := layout_msgs 64 ex_layout in
